@@ -1,0 +1,60 @@
+//go:build verif
+
+package diskpacked
+
+// Control point for the verification harness (property C03): make hole punching unavailable, as it
+// is on every non-Linux build and on file systems whose fallocate(FALLOC_FL_PUNCH_HOLE) answers
+// ENOSYS / EOPNOTSUPP, so that (*storage).delete takes its zero-fill fallback.  Unused, nothing
+// changes: the wrapper installed below forwards to the platform's punchHole (and reports errNoPunch
+// where there is none, which is what a nil punchHole means to delete).
+
+import (
+	"os"
+	"sync/atomic"
+)
+
+var (
+	verifNoPunchAll    atomic.Bool
+	verifNoPunchFilter atomic.Pointer[func(path string) bool]
+	verifNoPunchHits   atomic.Int64
+)
+
+func init() {
+	// punch_linux.go sorts before this file, so its init has run: platform is punchHoleLinux on
+	// Linux and nil elsewhere.  (Were the order ever different the hook would be ineffective, not
+	// harmful: VerifNoPunchHits stays 0 and the harness says so.)
+	platform := punchHole
+	punchHole = func(file *os.File, offset int64, size int64) error {
+		if verifNoPunchAll.Load() {
+			verifNoPunchHits.Add(1)
+			return errNoPunch
+		}
+		if f := verifNoPunchFilter.Load(); f != nil && (*f)(file.Name()) {
+			verifNoPunchHits.Add(1)
+			return errNoPunch
+		}
+		if platform == nil {
+			return errNoPunch
+		}
+		return platform(file, offset, size)
+	}
+}
+
+// VerifSetNoPunch makes every hole punch of this process report "not supported" (on = true) or
+// restores the platform's behaviour; it returns the previous setting.
+func VerifSetNoPunch(on bool) (old bool) { return verifNoPunchAll.Swap(on) }
+
+// VerifSetNoPunchFilter makes the hole punch report "not supported" for the pack files whose path
+// (as opened by the store: <storage root>/pack-NNNNN.blobs) satisfies f - a file system without
+// hole punching mounted there.  nil removes the filter.
+func VerifSetNoPunchFilter(f func(path string) bool) {
+	if f == nil {
+		verifNoPunchFilter.Store(nil)
+		return
+	}
+	verifNoPunchFilter.Store(&f)
+}
+
+// VerifNoPunchHits is the number of removals that were refused the hole punch by this hook (and
+// therefore went through the zero-fill fallback).
+func VerifNoPunchHits() int64 { return verifNoPunchHits.Load() }
